@@ -65,6 +65,8 @@ type FuncContract struct {
 	Inline         bool // force inlining at call sites even though a contract exists
 	OrderFree      bool // every slice appended to inside a range-over-map loop is sorted afterwards
 	OrderFreeProps []string
+	Reads          []string // struct fields that must be read (pkg.Type.Field)
+	ReadsProps     []string
 	Opts           map[string]string
 	Bound          bool
 }
@@ -85,7 +87,7 @@ type Contracts struct {
 
 func ckey(pkg, key string) string { return pkg + "::" + key }
 
-var clauseRe = regexp.MustCompile(`^(requires|ensures|panics|assigns|nopanic|props|loop|at|trusted|pure|functional|nosafety|inline|opt|guarded|orderfree)\b(\[[A-Z0-9, ]+\])?\s*(.*)$`)
+var clauseRe = regexp.MustCompile(`^(requires|ensures|panics|assigns|nopanic|props|loop|at|trusted|pure|functional|nosafety|inline|opt|guarded|orderfree|reads)\b(\[[A-Z0-9, ]+\])?\s*(.*)$`)
 
 func LoadContracts(repo string, pkgDirs map[string]string) (*Contracts, error) {
 	cs := &Contracts{Funcs: map[string]*FuncContract{}, Specs: map[string]*SpecFunc{}}
@@ -196,6 +198,15 @@ func (cs *Contracts) loadFile(pkgPath, file string) error {
 			case "functional":
 				fc.Functional = true
 				fc.Pure = true
+			case "reads":
+				// reads pkg.Type.Field, ... : each listed struct field must be loaded by the function or
+				// by a function of the same package reachable from it (static check on the SSA)
+				for _, item := range strings.Split(rest, ",") {
+					if item = strings.TrimSpace(item); item != "" {
+						fc.Reads = append(fc.Reads, item)
+					}
+				}
+				fc.ReadsProps = props
 			case "orderfree":
 				fc.OrderFree = true
 				fc.OrderFreeProps = props
